@@ -20,6 +20,7 @@ import (
 	"google.golang.org/protobuf/types/known/durationpb"
 
 	"verif/sched"
+	"verif/shim/vchan"
 	"verif/shim/vrand"
 	"verif/shim/vtime"
 )
@@ -29,6 +30,7 @@ import (
 // after it; streams are small fakes that record (and, under the scheduler, yield at) each Send.
 type Driver struct {
 	S        *bttest.VerifServer
+	real     *bttest.Server // set when the service was started through the public constructor
 	Engine   string
 	Dir      string
 	Clock    int64 // µs
@@ -64,8 +66,36 @@ func NewDriverOn(engine, dir string, st bttest.Storage) *Driver {
 	return d
 }
 
+// NewDriverReal starts the emulator the way cbtemulator does - bttest.NewServerWithOptions on a
+// loopback listener, which loads the persisted tables, registers the gRPC services and starts the
+// background GC goroutine - and drives the service implementation behind it. Close is the public
+// Server.Close. Only for uncontrolled (sequential / crash) executions: the GC goroutine runs free
+// (its first pass is 15-60 s of real time away).
+func NewDriverReal(engine, dir string) (*Driver, error) {
+	// the free-running GC goroutine waits in a rewritten select, which polls: poll slowly
+	vchan.SeqBlock = func() { time.Sleep(20 * time.Millisecond) }
+	d := &Driver{Engine: engine, Dir: dir, Clock: 1_000_000}
+	srv, err := bttest.NewServerWithOptions("127.0.0.1:0", bttest.Options{
+		Storage: NewStorage(engine, dir),
+		Clock:   func() bigtable.Timestamp { return bigtable.Timestamp(d.Clock) },
+	})
+	if err != nil {
+		return nil, err
+	}
+	d.real, d.S = srv, srv.VerifInner()
+	return d, nil
+}
+
 func (d *Driver) Close() {
 	if d.Poisoned || d.S == nil {
+		return
+	}
+	if d.real != nil {
+		func() {
+			defer func() { _ = recover() }()
+			d.real.Close()
+		}()
+		d.real, d.S = nil, nil
 		return
 	}
 	func() {
